@@ -630,6 +630,45 @@ def part_d(res, fa, first, seen, tmpdir):
     if first == 0:
         is_avro_check(res, fa, b"", {"part": "d"}, tmpdir)
         seen.add(b"")
+        # paths that are not regular files: a named pipe, a symbolic link, the /dev/fd view of an open pipe
+        import threading
+
+        for content in (b"Obj\x01rest-of-the-file", b"Obj\x02", b"Ob"):
+            want = content[:4] == b"Obj\x01"
+            for kind in ("fifo", "symlink", "dev-fd"):
+                res.evals += 1
+                info = {"part": "d", "path_kind": kind, "data": content}
+                try:
+                    if kind == "fifo":
+                        p = os.path.join(tmpdir, "pipe.avro")
+                        if os.path.exists(p):
+                            os.remove(p)
+                        os.mkfifo(p)
+                        t = threading.Thread(target=lambda: open(p, "wb").write(content))
+                        t.start()
+                        got = fa.is_avro(p)
+                        t.join(5)
+                    elif kind == "symlink":
+                        real = os.path.join(tmpdir, "real.bin")
+                        with open(real, "wb") as f:
+                            f.write(content)
+                        p = os.path.join(tmpdir, "link.avro")
+                        if os.path.lexists(p):
+                            os.remove(p)
+                        os.symlink(real, p)
+                        got = fa.is_avro(p)
+                    else:
+                        rfd, wfd = os.pipe()
+                        os.write(wfd, content)
+                        os.close(wfd)
+                        try:
+                            got = fa.is_avro("/dev/fd/%d" % rfd)
+                        finally:
+                            os.close(rfd)
+                except Exception as e:
+                    got = f"raised {type(e).__name__}: {e}"
+                if got is not want:
+                    res.add(Violation("c05.is_avro", f"is-avro-path:{kind}", f"is_avro({kind} holding {content[:8]!r}) = {got!r}, expected {want}", info))
     for n in range(1, 7):
         for tail in itertools.product(alpha, repeat=n - 1):
             data = alpha[first] + b"".join(tail)
